@@ -573,7 +573,8 @@ def check_C05(run, replay):
                 "infinite iff the budget is 0; plus the dynamic-range family (strategy exponents 50..1000 x budgets 1..1500 "
                 "x regret exponents down to -1000 x fallback weights on games with an infoset reached in the first "
                 "iteration only: the accumulators pass through the subnormal range) and the contention family (External, 2 / 3 / "
-                "16 threads, on the game whose opponent infoset is shared by all parallel tasks); distinct by lattice index; "
+                "16 threads, on the game whose opponent infoset is shared by all parallel tasks) and the constructor family "
+                "(RegretParams::new over {-1,1,NaN,+-inf}^4 panics exactly as documented); distinct by lattice index; "
                 "every point is non-trivial")
     run.assumptions = ["|payoff| <= 1e6", "hang = no return within 30 s",
                        "usize::MAX/3 itself (65535 real threads in rayon) is not exercised: resource hazard for the sandbox"]
@@ -593,7 +594,12 @@ def check_C05(run, replay):
     res3 = tlc("MC_Lattice", env={"SLICE": 0, "OF": 1, "NUMGAMES": 15, "FAMILY": "contention"}, timeout=3000)
     run.add_tlc(res3)
     recs = recs + [(i + 200000000, v) for (i, v) in res3.out("OUT")]
-    run.notes["points"] = {"lattice": len(res.out("OUT")), "range": len(res2.out("OUT")), "contention": len(res3.out("OUT"))}
+    kstride = 5 if run.tier == "quick" else 1
+    res4 = tlc("MC_Lattice", env={"SLICE": run.seed % kstride, "OF": kstride, "NUMGAMES": 15, "FAMILY": "ctor"}, timeout=3000)
+    run.add_tlc(res4)
+    recs = recs + [(i + 300000000, v) for (i, v) in res4.out("OUT")]
+    run.notes["points"] = {"lattice": len(res.out("OUT")), "range": len(res2.out("OUT")), "contention": len(res3.out("OUT")),
+                           "constructor": len(res4.out("OUT"))}
     exp_path = run.path("lattice.exp.ndjson")
     write_ndjson(exp_path, [{"id": i, "exp": dict(v, seed=run.seed)} for (i, v) in recs])
     out_path = run.path("lattice.res.ndjson")
